@@ -2,3 +2,5 @@
 import AiutiVerif.Core.Wire
 import AiutiVerif.Split.Props
 import AiutiVerif.Split.Drive
+import AiutiVerif.Parse.Props
+import AiutiVerif.Parse.Drive
